@@ -523,6 +523,7 @@ var urlCandidates = []string{
 	"http://a/b", "/p", "p", "javascript:alert(1)", "http://a/b c", "mailto:x@y", "https://a.b/c?d=e#f", "//a/b",
 	"JaVaScRiPt:x", "data:image/png;base64,AAAA", "data:text/html,<x>", " http://a/b ", "http://a/b\tc", "http://a/\nb",
 	"vbscript:x", "", "   ", "http://[::1", "%zz", "ftp://h/p", "x:y", "HTTP://A/B", "data:image/png;base64,AA AA",
+	"http:a/b", "https:a/b?c", "http://a/%", " //a/b", "\nhttp://a/b",
 }
 
 func groundURLFacts(s string, depth int) []*smt.Term {
